@@ -1,13 +1,15 @@
 #!/bin/sh
 # usage: tools/inst.sh <instance> <patch.diff|-> <ID> [tier]
 # Instance mode: checks a scratch worktree /tmp/wt/inst_<instance> of /repo's HEAD (with the patch applied) side by side
-# with other instances; nothing under /repo, /verif/evidence or /verif/replays is touched.
+# with other instances; nothing under /repo, /verif/evidence or /verif/replays is touched (build output and work files:
+# /tmp/verif_inst/<instance>; remove them and the worktree when done).
 I="$1"; P="$2"; ID="$3"; TIER="${4:-quick}"
 WT=/tmp/wt/inst_$I
 cd /verif
 if [ ! -d "$WT" ]; then git -C /repo worktree add -q --detach "$WT" HEAD || exit 3; fi
 git -C "$WT" checkout -q --detach "$(git -C /repo rev-parse HEAD)" && git -C "$WT" reset -q --hard
-if [ ! -d .build/inst/$I ]; then mkdir -p .build/inst/$I; cp -a .build/harness .build/inst/$I/harness 2>/dev/null; cp -a .build/repo .build/inst/$I/repo 2>/dev/null; fi
+R=${VERIF_INSTANCE_ROOT:-/tmp/verif_inst}
+if [ ! -d $R/$I/build ]; then mkdir -p $R/$I/build; cp -a .build/harness $R/$I/build/harness 2>/dev/null; cp -a .build/repo $R/$I/build/repo 2>/dev/null; fi
 [ -f "$WT/Cargo.lock" ] || cp /repo/Cargo.lock "$WT/Cargo.lock"
 if [ "$P" != "-" ]; then git -C "$WT" apply --3way "$P" 2>/dev/null || git -C "$WT" apply "$P" || { echo "PATCH-DOES-NOT-APPLY"; exit 3; }; fi
 VERIF_INSTANCE=$I VERIF_REPO=$WT ./check "$ID" "$TIER" 2>&1 | grep -E "VIOLATION|KNOWN-FINDING|TOOL-ERROR|Traceback|rc=|violation:"
